@@ -141,9 +141,11 @@ Xml& Xml::put(const String& name, const String& val)
 
 const String& Xml::_Xml::text() const
 {
-	if (children.length() > 0 /* && children[0].isText()*/)
-		return children[0].text();
-	return xnoStr;
+	// the text of the first child, of its first child... : walk down instead of recursing once per level
+	const _Xml* e = this;
+	while (!e->isText() && e->children.length() > 0)
+		e = e->children[0]._();
+	return e->isText() ? e->text() : xnoStr;
 }
 
 Xml& Xml::operator<<(const String& t)
